@@ -113,14 +113,15 @@ T_Recv ==
              /\ div' = TRUE /\ UNCHANGED pend
   /\ Consume /\ UNCHANGED <<st, hist, alts, devs>>
 
-\* the backend answered and the complete response (200, END_STREAM) reached the peer: Sozu_Respond
+\* the backend answered and the complete response (200, body, END_STREAM) reached the peer: Sozu_Respond with a
+\* stream window that lets the whole body through
 T_Respond ==
   /\ Cur.ev = "respond" /\ ~div
-  /\ Cur.sid \in OddSids /\ st.ss[Cur.sid] = "hcr" /\ ~st.gs
-  /\ LET s1 == SetSS(st, Cur.sid, "closed")
-         fin == st.cs = "draining" /\ Active(s1) = 0
-     IN /\ st' = IF fin THEN [s1 EXCEPT !.gs = TRUE] ELSE s1
-        /\ pend' = IF fin THEN Append(pend, [x |-> "goaway", sid |-> 0, c |-> "NO", must |-> TRUE]) ELSE pend
+  /\ Cur.sid \in OddSids /\ st.ss[Cur.sid] = "hcr" /\ st.rem[Cur.sid] = 0 /\ ~st.gs
+  /\ LET s1 == RespondState(st, Cur.sid, "ok")
+     IN /\ s1.ss[Cur.sid] = "closed"
+        /\ st' = s1
+        /\ pend' = IF s1.gs THEN Append(pend, [x |-> "goaway", sid |-> 0, c |-> "NO", must |-> TRUE]) ELSE pend
   /\ Consume /\ UNCHANGED <<hist, alts, div, devs>>
 
 T_End ==
